@@ -677,13 +677,6 @@ Fixpoint tens_shape (t : tens) : option (list nat) :=
       end
   end.
 
-(** row-major storage *)
-Fixpoint tens_flat (t : tens) : list num :=
-  match t with
-  | TS x => [x]
-  | TL l => concat (map tens_flat l)
-  end.
-
 Definition prod_list (l : list nat) : nat := fold_right Nat.mul 1 l.
 
 Fixpoint chunks {A : Type} (n : nat) (k : nat) (l : list A) : list (list A) :=
@@ -763,11 +756,18 @@ Fixpoint ax_stride (e : axis) : nat * sdict :=
   | ASum b t _ => let os := ax_stride t in (fst os + b, snd os)
   end.
 
-(** [PatternedTensor(physical, paxes, vaxes, default)]: physical storage (row-major, broadcasting
-    by [expand] materialised), the sizes of the physical axes, the virtual axes, the default.
+(** [PatternedTensor(physical, paxes, vaxes, default)].  The physical tensor is a base tensor
+    [pt_phys] viewed with [pt_nex] additional leading broadcast dimensions (what
+    [physical.expand([*expand, -1, ...])] makes: stride 0, so the element at a physical index does
+    not depend on the leading [pt_nex] coordinates); [pt_pshape] are the sizes of the physical axes
+    (broadcast ones first), then the virtual axes and the default.
     [__post_init__] replaces physical axes of size 1 by [unitAxis] and squeezes them away; the
     model keeps them (their index is always 0). *)
-Record ptensor := mkPT { pt_flat : list num; pt_pshape : list nat; pt_vaxes : list axis; pt_default : num }.
+Record ptensor := mkPT { pt_phys : tens; pt_nex : nat; pt_pshape : list nat; pt_vaxes : list axis;
+                         pt_default : num }.
+
+(** [physical[p]] *)
+Definition phys_at (pt : ptensor) (p : list nat) : option num := tens_get (pt_phys pt) (skipn (pt_nex pt) p).
 
 Definition pt_shape (pt : ptensor) : list nat := map ax_numel (pt_vaxes pt).
 
@@ -792,8 +792,12 @@ Fixpoint list_set {A : Type} (l : list A) (i : nat) (x : A) : list A :=
   | y :: l', S i' => y :: list_set l' i' x
   end.
 
+(** the storage offset [sum_k stride[k] * p_k] of the strided view at physical index [p]
+    ([as_strided] receives [stride[k] for k in paxes]; every key of [stride] is one of the [paxes]
+    -- checked below -- and axes that are not keys were squeezed away, so the sum over the keys is
+    the same sum) *)
 Definition dot_index (st : sdict) (p : list nat) : nat :=
-  fold_right Nat.add 0 (map (fun kp => sd_get st (fst kp) * snd kp) (combine (seq 0 (length p)) p)).
+  fold_right (fun kc acc => snd kc * nth (fst kc) p 0 + acc) 0 st.
 
 (** [to_dense]: [virtual = new_full(size, default); project(virtual, paxes, vaxes)[0].copy_(physical)].
     The debug check of [project] ([ValueError] unless the axes occurring in [vaxes] are exactly
@@ -807,9 +811,11 @@ Definition pt_to_dense (pt : ptensor) : res tens :=
            forallb (fun k => k <? length (pt_pshape pt)) (map fst (snd os)))
   then Err ValueErr
   else
-    let writes := combine (all_indices (pt_pshape pt)) (pt_flat pt) in
-    let flat := fold_left (fun fl w => list_set fl (fst os + dot_index (snd os) (fst w)) (snd w))
-                          writes (repeat (pt_default pt) (prod_list size)) in
+    let flat := fold_left (fun fl p => match phys_at pt p with
+                                       | Some v => list_set fl (fst os + dot_index (snd os) p) v
+                                       | None => fl
+                                       end)
+                          (all_indices (pt_pshape pt)) (repeat (pt_default pt) (prod_list size)) in
     Ok (tens_of_flat size flat).
 
 (** [weights_to_json]: nested lists of the dense content.  (The code reaches it by iterating the
@@ -858,13 +864,6 @@ Definition as_num (j : json) : res num :=
   | _ => Err Unmodelled
   end.
 
-(** [physical.expand([*expand, -1, ...])]: new leading dimensions, content repeated *)
-Fixpoint expand_flat (ex : list nat) (flat : list num) : list num :=
-  match ex with
-  | [] => flat
-  | n :: ex' => concat (repeat (expand_flat ex' flat) n)
-  end.
-
 Definition json_to_weights_model (j : json) : res ptensor :=
   match j with
   | JDict _ =>
@@ -877,7 +876,7 @@ Definition json_to_weights_model (j : json) : res ptensor :=
                | Some (JList l) => mapM as_nat l
                | Some _ => Err Unmodelled
                end;
-      let flat := expand_flat ex (tens_flat t) in
+      (* physical.expand([*expand, -1, ...]): new leading broadcast dimensions *)
       let pshape := ex ++ shape in
       let paxes := map (fun kn => APhys (fst kn) (snd kn)) (combine (seq 0 (length pshape)) pshape) in
       do ov <- jget_opt j k_vaxes;
@@ -890,12 +889,12 @@ Definition json_to_weights_model (j : json) : res ptensor :=
           do vaxes <- mapM (json_to_axis paxes) lv;
           do od <- jget_opt j k_default;
           do default <- match od with None => Ok (NFin 0) | Some x => as_num x end;
-          Ok (mkPT flat pshape vaxes default)
+          Ok (mkPT t (length ex) pshape vaxes default)
       end
   | _ =>
       do t <- parse_tens j;
       do shape <- match tens_shape t with Some s => Ok s | None => Err ValueErr end;
-      Ok (mkPT (tens_flat t) shape
+      Ok (mkPT t 0 shape
                (map (fun kn => APhys (fst kn) (snd kn)) (combine (seq 0 (length shape)) shape))
                (NFin 0))
   end.
